@@ -60,7 +60,11 @@ public:
       int type = (int)rng.below(4);
       size_t len = rng.chance(200) ? (size_t)rng.range(16000, 70000) : (size_t)rng.below(200);
       std::string content;
-      for (size_t k = 0; k < len; k++) content += (char)('a' + rng.below(26));
+      // text, or binary with NUL bytes (object files, images), or a leading NUL
+      int alphabet = (int)rng.below(3);
+      for (size_t k = 0; k < len; k++)
+        content += alphabet == 0 ? (char)('a' + rng.below(26)) : rng.chance(150) ? '\0' : (char)rng.below(256);
+      if (alphabet == 2 && !content.empty()) content[0] = '\0';
       c.set("type", type).set("content", util::hex(content));
       // mutation between the two observations
       static const char* kinds[] = {"none", "content-same-size", "content-other-size", "mtime-only", "inode-only", "retype", "delete", "create",
@@ -109,7 +113,8 @@ public:
           else {
             uint64_t oldM = ino->mtime_ns;
             std::string d = ino->data;
-            d[d.size() / 2] = d[d.size() / 2] == 'z' ? 'y' : 'z';
+            size_t at = idx % 3 == 0 ? d.size() - 1 : idx % 3 == 1 ? d.size() / 2 : 0;
+            d[at] = d[at] == 'z' ? 'y' : 'z';
             ino->data = d;
             F.touched(ino);
             sameContent = false;
